@@ -1,5 +1,5 @@
 import Rtsp.Proofs.Pipeline.Run
-import Rtsp.Proofs.Receiver.Basic
+import Rtsp.Proofs.Receiver.Step
 /-
 UDP readers (C01): whatever the network does (loss, duplication, reordering: `arrive k` for any `k`, any
 number of times), every callback is a datagram that was sent to this reader, demultiplexed to its own
@@ -93,18 +93,23 @@ theorem reorder_contain (s : Recv.State) (p : Recv.Pkt) (P : Recv.Pkt → Prop)
 theorem step_contain (s : Recv.State) (p : Recv.Pkt) (P : Recv.Pkt → Prop)
     (hb : ∀ q, some q ∈ s.buf → P q) (hp : P p) :
     (∀ q, some q ∈ (Recv.step s p).1.buf → P q) ∧ (∀ q ∈ (Recv.step s p).2.pkts, P q) := by
-  unfold Recv.step
-  split
-  · refine ⟨hb, ?_⟩
+  have hsingle : ∀ q ∈ [p], P q := by
     intro q hq; simp only [List.mem_singleton] at hq; subst hq; exact hp
-  · split
-    · -- unreliable: `reorder`
+  cases hf : s.first with
+  | false =>
+    rw [step_first s p hf]
+    exact ⟨hb, hsingle⟩
+  | true =>
+    cases hu : s.unreliable with
+    | true =>
+      rw [step_unrel s p hf hu]
       have := reorder_contain s p P hb hp
-      simp only [(foldl_advance_fields _ _).1]
+      simp only [(foldl_advance_fields _ _).1, counted]
       exact this
-    · simp only [(foldl_advance_fields _ _).1]
-      refine ⟨hb, ?_⟩
-      intro q hq; simp only [List.mem_singleton] at hq; subst hq; exact hp
+    | false =>
+      rw [step_rel s p hf hu]
+      simp only [(foldl_advance_fields _ _).1, counted]
+      exact ⟨hb, hsingle⟩
 
 /-! ## the UDP reader -/
 
@@ -201,5 +206,75 @@ theorem uinv_rarrive {cfg : Cfg} {ws : WLog} {x : Reader} (hr : RInv cfg ws x) (
         · rw [List.getElem?_eq_none h] at hg; cases hg
       show (x.arrived ++ [f])[q.id]? = some g
       rw [List.getElem?_append_left hlt]; exact hg
+
+end Rtsp.Pipe
+
+namespace Rtsp.Pipe
+
+/-- events that leave the arrival history, the callbacks and the receivers alone, and only add to the wire -/
+theorem uinv_frame {cfg : Cfg} {x x' : Reader} (h : UInv cfg x) (ha : x'.arrived = x.arrived)
+    (hc : x'.cbs = x.cbs) (hx : x'.rx = x.rx) (hw : ∀ g ∈ x.wire, g ∈ x'.wire) : UInv cfg x' := by
+  constructor
+  · intro g hg; rw [ha] at hg; exact hw g (h.arrived_sent g hg)
+  · intro d hd; rw [hc] at hd; rw [ha]; exact h.cbs_arrived d hd
+  · intro e he; rw [hx] at he
+    intro q hq
+    obtain ⟨g, hg, hk⟩ := h.rx_ok e he q hq
+    exact ⟨g, by rw [ha]; exact hg, hk⟩
+
+theorem uinv_write {cfg : Cfg} {x : Reader} (h : UInv cfg x) (m : Nat) (p : Pkt) :
+    UInv cfg (rwrite cfg x m p) := by
+  apply uinv_frame h <;> (unfold rwrite; split)
+  all_goals first
+    | rfl
+    | (split <;> rfl)
+    | (intro g hg; exact hg)
+    | (split <;> (intro g hg; exact hg))
+
+theorem uinv_ctl {cfg : Cfg} {ws : WLog} {x : Reader} (hr : RInv cfg ws x) (hu : x.udp = true)
+    (h : UInv cfg x) (c : Ctl) : UInv cfg (rctl cfg x c) := by
+  cases c with
+  | arrive k =>
+    simp only [rctl, hu, Bool.not_true, Bool.false_eq_true, if_false]
+    split
+    · exact h
+    · rename_i f hf
+      exact uinv_rarrive hr h f (List.mem_of_getElem? hf)
+  | consume =>
+    simp only [rctl]
+    split
+    · exact h
+    · split
+      · exact h
+      · exact uinv_frame h rfl rfl rfl (fun g hg => List.mem_append_left _ hg)
+  | carry => simp only [rctl, hu, if_true]; exact h
+  | leave =>
+    simp only [rctl, hu, if_true]
+    split
+    · exact h
+    · exact uinv_frame h rfl rfl rfl (fun g hg => hg)
+  | setup m => simp only [rctl]; split <;> first | exact h | exact uinv_frame h rfl rfl rfl (fun g hg => hg)
+  | play => simp only [rctl]; split <;> first | exact h | exact uinv_frame h rfl rfl rfl (fun g hg => hg)
+  | pclose => simp only [rctl]; split <;> first | exact h | exact uinv_frame h rfl rfl rfl (fun g hg => hg)
+  | pnil => simp only [rctl]; split <;> first | exact h | exact uinv_frame h rfl rfl rfl (fun g hg => hg)
+  | pinact => simp only [rctl]; split <;> first | exact h | exact uinv_frame h rfl rfl rfl (fun g hg => hg)
+
+theorem uinv_rstep {cfg : Cfg} {ws : WLog} {x : Reader} (hr : RInv cfg ws x) (hu : x.udp = true)
+    (h : UInv cfg x) (e : REv) : UInv cfg (rstep cfg x e) := by
+  cases e with
+  | write m p => exact uinv_write h m p
+  | ctl c => exact uinv_ctl hr hu h c
+
+theorem uinv_rrun {cfg : Cfg} (evs : List REv) : ∀ {ws : WLog} {x : Reader}, RInv cfg ws x → x.udp = true →
+    UInv cfg x → UInv cfg (rrun cfg x evs) := by
+  induction evs with
+  | nil => intro ws x _ _ h; exact h
+  | cons e es ih =>
+    intro ws x hr hu h
+    simp only [rrun]
+    exact ih (rinv_rstep hr e) (by rw [rstep_udp]; exact hu) (uinv_rstep hr hu h e)
+
+theorem uinv_reachable (cfg : Cfg) (evs : List REv) : UInv cfg (rrun cfg { udp := true } evs) :=
+  uinv_rrun evs (rinv_init cfg true) rfl (uinv_init cfg true)
 
 end Rtsp.Pipe
